@@ -84,6 +84,23 @@ def plan(chk: Check):
 _CODE = {}
 
 
+class Groups:
+    """every few new shapes, drop JAX's compiled executables (each new shape compiles a dozen functions; in
+    the thorough tier several hundred of them otherwise exhaust the process's memory maps)"""
+
+    def __init__(self, every=6):
+        self.keys, self.every = set(), every
+
+    def seen(self, key):
+        if key in self.keys:
+            return
+        self.keys.add(key)
+        if len(self.keys) % self.every == 0:
+            import jax
+            _CODE.clear()
+            jax.clear_caches()
+
+
 def trial_of(I):
     """(trial, wave_data) exactly as a user would construct them"""
     import jax.numpy as jnp
@@ -197,13 +214,18 @@ def bind_trial_formulas(chk: Check, I, R):
                 "walker": [I["wu"].tolist(), I["wd"].tolist()], "pairs_checked": len(meta)}, limit=3)
 
 
+MARGIN = 1e-7      # distance of the driving uniform number from the exact branch probability
+
+
 def rns_for(path, p0s, n):
-    """gaussian random numbers whose uniform image (1+erf(g/sqrt2))/2 lies strictly inside the branch of `path`"""
+    """gaussian random numbers whose uniform image (1+erf(g/sqrt2))/2 lies on the required side of the exact
+    probability p0 of field 0 at every site of `path`, only MARGIN away from it: the code follows the path iff
+    its own branch probability agrees with the exact one to MARGIN (float rounding is ~1e-15)."""
     from scipy.special import erfinv
     g = np.zeros(n)
     for k, x in enumerate(path):
         p0 = float(cpmc.fr(p0s[k]))
-        u = p0 / 2.0 if x == 0 else (1.0 + p0) / 2.0
+        u = p0 - min(MARGIN, p0 / 2.0) if x == 0 else p0 + min(MARGIN, (1.0 - p0) / 2.0)
         g[k] = math.sqrt(2.0) * float(erfinv(2.0 * u - 1.0))
     return g
 
@@ -333,7 +355,9 @@ def exact_part(chk: Check, insts=None, name="file"):
     insts = insts if insts is not None else plan(chk)
     res, r = cpmc.tlc_eval(chk, insts, name)
     nfree = ncons = novf = 0
+    groups = Groups()
     for I in insts:
+        groups.seen((I["kind"], I["n"], I["nu"], I["nd"]))
         R = res[I["id"]]
         s = R.get("sum")
         if s is None or s["ovf"] or R["init"]["ovf"]:
@@ -419,12 +443,19 @@ def fast_slow_part(chk: Check, cases=None):
                     for s in seeds:
                         cases.append({"mode": "onsite", "kind": kind, "lat": lat_kind, "n": n, "nelec": list(nelec),
                                       "U": U, "seed": chk.seed * 1000 + s, "dt": DT})
+                if not quick and n == 4 and tuple(nelec) == (2, 2):
+                    for dt in (0.02, 0.005):        # other time steps (each recompiles the propagators)
+                        for s in range(3):
+                            cases.append({"mode": "onsite", "kind": kind, "lat": lat_kind, "n": n,
+                                          "nelec": list(nelec), "U": 4.0, "seed": chk.seed * 1000 + 900 + s, "dt": dt})
                 for u1 in (0.0, 0.5, 2.0):
                     for s in seeds:
                         cases.append({"mode": "nn", "kind": kind, "lat": lat_kind, "n": n, "nelec": list(nelec),
                                       "U": 4.0, "u1": u1, "seed": chk.seed * 1000 + 500 + s, "dt": DT})
     items = []
+    groups = Groups(every=3)
     for c in cases:
+        groups.seen((c["mode"], c["kind"], c["lat"], c["n"], tuple(c["nelec"]), c["dt"]))
         rng = np.random.default_rng(c["seed"])
         n, nelec, kind = c["n"], tuple(c["nelec"]), c["kind"]
         if c["mode"] == "onsite":
@@ -493,9 +524,10 @@ def exp_h1_part(chk: Check, cases=None):
     quick = chk.tier == "quick"
     if cases is None:
         cases = []
-        lats = (("chain", 2, (1, 1)), ("chain", 3, (2, 1)), ("chain", 4, (2, 2)), ("grid", 4, (2, 2)))
+        lats = (("chain", 2, (1, 1)), ("chain", 3, (2, 1)), ("chain", 4, (2, 2)), ("grid", 4, (2, 2)),
+                ("chain", 4, (3, 1)), ("chain", 3, (1, 1)))
         if not quick:
-            lats += (("chain", 4, (1, 1)), ("chain", 4, (3, 1)), ("grid", 4, (2, 1)), ("chain", 3, (1, 1)))
+            lats += (("chain", 4, (1, 1)), ("grid", 4, (2, 1)), ("grid", 4, (3, 3)), ("chain", 3, (2, 2)))
         for lat_kind, n, nelec in lats:
             for kind in ("uhf", "ghf"):
                 for nonuni in (False, True):
@@ -552,6 +584,9 @@ def run(chk: Check):
         "the half step of the exact instances is an arbitrary invertible integer matrix injected through "
         "ham_data['exp_h1'] (and hs_constant = [[p,q],[q,p]] with dt*U = -ln(pq), which init_prop_data must itself "
         "reproduce to 1e-10); that the library's own exp_h1 is expm(-dt K/2) is part (d), judged against scipy expm",
+        "leaf driving: the uniform number of every site is placed 1e-7 away from the exact branch probability on "
+        "the side of the wanted field, so the code reaches the leaf only if its own probabilities agree with the "
+        "exact ones to 1e-7",
         "a path is 'unconstrained' when every candidate overlap ratio and both half-step overlap ratios are positive "
         "and the weight stays below the cap of 100; quantities within 1e-6 of a threshold make a path ambiguous "
         "(skipped, counted); constrained paths are compared with the model's rule (ratio <= 0 -> probability 0) "
